@@ -1229,7 +1229,9 @@ def run_named(ctx, J, bases):
 def run(ctx):
     ctx.rule = ("handshake cases: (scenario, sender, message index, mutation descriptor) - field/length/type/value-level "
                 "mutations generated from the parsed structure of the live message, stratified sample per message, plus the "
-                "always-run named cases; raw cases: (role, scenario, first-flight byte string); post-handshake cases: "
+                "always-run named cases, half of them with closeSocket=False on the victim (the alert must reach the wire "
+                "by the library's own write); certificate cases: (scenario, sender, SubjectPublicKeyInfo variant) - real test "
+                "certificates re-encoded with an unusual public key, in Certificate and CompressedCertificate; raw cases: (role, scenario, first-flight byte string); post-handshake cases: "
                 "(scenario, victim, message list or injected records); distinct = distinct tuple; all are non-trivial "
                 "(each delivers at least one malformed or unexpected input to a live endpoint)")
     ctx.assumptions = ["memsock transport: recv returns what is queued, EWOULDBLOCK when empty (no partial-send faults here: C14/C17)",
